@@ -313,6 +313,14 @@ impl Response {
                 let col_count = u32::from_le_bytes(payload[0..4].try_into().unwrap()) as usize;
                 offset += 4;
 
+                // Every string takes at least its 4-byte length prefix: a count the payload
+                // cannot hold is garbage and must not drive an allocation.
+                if col_count > (payload.len() - offset) / 4 {
+                    return Err(TcpError::InvalidMessage(
+                        "Column count exceeds payload".into(),
+                    ));
+                }
+
                 let mut columns = Vec::with_capacity(col_count);
 
                 for _ in 0..col_count {
@@ -327,6 +335,19 @@ impl Response {
                 let row_count =
                     u32::from_le_bytes(payload[offset..offset + 4].try_into().unwrap()) as usize;
                 offset += 4;
+
+                // Same for the rows: each one holds `col_count` strings. Rows without columns
+                // carry no bytes at all, so only the frame cap can bound their number.
+                let max_rows = if col_count == 0 {
+                    MAX_MESSAGE_SIZE
+                } else {
+                    (payload.len() - offset) / 4 / col_count
+                };
+                if row_count > max_rows {
+                    return Err(TcpError::InvalidMessage(
+                        "Row count exceeds payload".into(),
+                    ));
+                }
 
                 let mut data = Vec::with_capacity(row_count);
                 for _ in 0..row_count {
